@@ -1,6 +1,7 @@
 """C05 — MOV/XCHG/PUSH/POP/LAHF/SAHF/PUSHF/POPF/XLAT as exact bit-level data movement; SP arithmetic and
 stack cell addresses as affine forms; no flag write."""
 import itertools
+import re
 from domains import Lin, lin_equal_witness
 from insn import is_copy, report_aborts, FBIT
 from units import run_interp_production, addr_atom
@@ -93,11 +94,27 @@ def machine(P, st):
     return regs, st.frames[0]["mem"]
 
 
-def classify(G, p):
-    """operand descriptors of a production from its RHS"""
+def classify(G, p, depth=0):
+    """operand descriptors of a production from its RHS.  A nonterminal that is none of the known operand classes but
+    whose every alternative is exactly one operand (an operand-class nonterminal such as `push_operand = reg | "word" mem |
+    label`) becomes one descriptor of kind "alt" that enumerate_runs expands alternative by alternative."""
     ops = []
     names = [s["name"] for s in p["symbols"]]
+    known = ("byte_reg", "reg_cl", "word_reg", "seg_reg", "pop_reg", '"cs"', "memory_addr", "byte_label", "word_label", "s_byte_num", "u_byte_num", "s_word_num", "u_word_num")
     for i, n in enumerate(names):
+        if n not in known and p["symbols"][i]["t"] == "nt" and depth < 2 and n in G.nts:
+            alts = []
+            for j, q in enumerate(G.productions(n)):
+                sub = classify(G, q, depth + 1)
+                if len(sub) != 1 or sub[0].kind == "alt":
+                    alts = None
+                    break
+                alts.append((j, sub[0]))
+            if alts:
+                o = Operand(i, "alt", 0)
+                o.alts = alts
+                ops.append(o)
+            continue
         if n in ("byte_reg", "reg_cl"):
             ops.append(Operand(i, "reg", 8))
         elif n in ("word_reg", "seg_reg", "pop_reg"):
@@ -132,7 +149,25 @@ def enumerate_runs(ctx, G, nt, k, ops):
     names = [s["name"] for s in p["symbols"]]
     per = []
     for o in ops:
-        if o.kind == "reg" and o.reg is None:
+        if o.kind == "alt":
+            lst = []
+            for j, sub in o.alts:
+                subname = G.productions(names[o.pos])[j]["symbols"][sub.pos]["name"]
+                if sub.kind == "reg" and sub.reg is None:
+                    for ch, t in reg_alternatives(G, subname):
+                        o2 = Operand(o.pos, "reg", sub.width)
+                        o2.reg = t
+                        d = {(): j}
+                        d.update({(sub.pos,) + pth: kk for pth, kk in ch.items()})
+                        lst.append((o2, d, t))
+                else:
+                    o2 = Operand(o.pos, sub.kind, sub.width)
+                    o2.reg = sub.reg
+                    if sub.kind == "mem":
+                        o2.atom = re.sub(r"\d+$", "", sub.atom) + f"{o.pos}{sub.pos}"
+                    lst.append((o2, {(): j}, o2.reg))
+            per.append(lst)
+        elif o.kind == "reg" and o.reg is None:
             per.append([(o, ch, t) for ch, t in reg_alternatives(G, names[o.pos])])
         elif o.kind == "imm":
             alts = []
